@@ -43,7 +43,7 @@ for s in $SRCS; do
   [ -f $V/$s ] || continue
   o=$B/obj/$(echo $s | tr / _).o
   OBJS="$OBJS $o"
-  if [ ! -f $o ] || [ $V/$s -nt $o ] || [ -n "$(find $V/sim $V/harness -name '*.h' -newer $o | head -1)" ] || [ $V/build.sh -nt $o ]; then
+  if [ ! -f $o ] || [ $s = harness/common.cc ] || [ $V/$s -nt $o ] || [ -n "$(find $V/sim $V/harness -name '*.h' -newer $o | head -1)" ] || [ $V/build.sh -nt $o ]; then
     $CXX -std=c++17 $HFLAGS $DEFS $INC -Wall -Wno-unused-function -c $V/$s -o $o &
     pids="$pids $!"
   fi
